@@ -483,6 +483,7 @@ func (ctx *Context) evaluate() {
 			return
 		}
 
+		verifStep(ctx, opIndex, e.top, blockIndex, fstrBlockIndex, diceStateIndex, len(details))
 		code := e.code[opIndex]
 		cIndex := fmt.Sprintf("%d/%d", opIndex+1, e.codeIndex)
 		if ctx.Config.PrintBytecode {
